@@ -297,7 +297,7 @@ def vc_getattr(H):
                     rt = r.t if isinstance(r, SRing) else z3.RealVal(r) if isinstance(r, int) else None
                     ctx.oblige('getattr: (-1)^parity * coefficient, 0 when absent', rt is not None and rt == exp)
             if raised is not None:
-                raise raised
+                ctx.notes.append('expected-raise'); raise raised
             return r
         H.run_paths(fuc, f'name={kind}', body)
     # the literal numpy probe
@@ -373,11 +373,11 @@ def vc_indexing(H):
                 if src == 'multivector-other-keys':
                     ctx.oblige('setitem: a multivector with different keys is rejected and nothing is written', raised is not None and not stores)
                     if raised:
-                        raise raised
+                        ctx.notes.append('expected-raise'); raise raised
                     return r
                 if raised:
                     ctx.oblige('setitem: does not raise', False)
-                    raise raised
+                    ctx.notes.append('expected-raise'); raise raised
                 if branch == 'list':
                     ok = len(stores) == 3 and all(st[1] is vals[i] and same(st[2], (idx,)) and same(st[3], new[i]) for i, st in enumerate(stores))
                 else:
@@ -543,12 +543,12 @@ def vc_new(H):
                 ctx.oblige(f'new[{label}]: inconsistent input raises (documented: {exp}) instead of producing a multivector',
                            raised is not None and not made, meta={'raised': repr(raised)})
                 if raised:
-                    raise raised
+                    ctx.notes.append('expected-raise'); raise raised
                 return r
             if raised is not None or len(made) != 1:
                 ctx.oblige(f'new[{label}]: consistent input produces one multivector', False, meta={'raised': repr(raised)})
                 if raised:
-                    raise raised
+                    ctx.notes.append('expected-raise'); raise raised
                 return r
             (a, k) = made[0]
             a = list(a) + [k.get(x) for x in ('keys', 'values') if x in k]
